@@ -19,7 +19,7 @@ CHECKS["C01"] = dict(
          "choice, and TLC shows Aligned / DeviceGot / NoForeign / termination for every cut, read size, depth, strip/exact/echo style within the bounds. "
          "ChannelScn.tla generates scripted sessions that satisfy the property's preconditions together with the results the contract predicts; the harness "
          "drives generic.Driver and network.Driver (SendCommand, SendCommands) against a causal scripted device under 4-8 segmentation/delay variants and compares "
-         "Result/RawResult and the lines the device received. A deviation of the code (echo wait satisfied by stale bytes) is modelled as Text!EarlyEcho and listed as a known finding.",
+         "Result/RawResult and the lines the device received. A deviation of the code (echo wait satisfied by stale bytes) is modelled as Text!EarlyEcho and listed as a known finding. Histories: the first send times out on a busy device, its late bytes arrive while the driver is being closed (forced at yield point C_wait), the same object is opened again and the command repeated. Commands from LF / CR LF files; consoles whose return key is a carriage return. OpOptions.tla (shared stage): StripPrompt / ExactMatchInput / Eager land whatever precedes them in the operation's option list.",
     note="Trusted: TLC; the scripted device (causal, never cuts inside an escape sequence); concretisation of the abstract alphabet. Bounds: 2 commands, outputs <= 11 symbols, "
          "read sizes {1,3,all}, queue <= 3 in the exhaustive config; 260 (quick) / 2500 (thorough) generated sessions x 4 / 8 variants.")
 CHECKS["C13"] = dict(
@@ -29,7 +29,7 @@ CHECKS["C13"] = dict(
     text="The failure-marking contract (list in force, substring scan on the post-processed output, first matching string, aggregate = exactly the failed members, "
          "stop-on-failed = nothing transmitted after the first failed command, collapsed config response) is a TLA+ module whose whole scenario space up to the bound is "
          "enumerated by TLC (sanity invariants StopIsPrefix, OpWins, AggregateExact) and replayed on generic/network SendCommands, SendCommandsFromFile, SendConfigs, "
-         "SendConfigsFromFile and SendConfig; Failed flags, error strings, aggregate members, response counts, collapsed result and the lines the device received are compared.",
+         "SendConfigsFromFile and SendConfig; Failed flags, error strings, aggregate members, response counts, collapsed result and the lines the device received are compared. Further: the driver-level list given twice (the later replaces), an earlier operation with a list of its own. OpOptions.tla: FailedWhenContains / StopOnFailed.",
     note="Trusted: TLC, the scripted device. Exhaustive over lists of <= 3 (quick) / 4 (thorough) outputs from 5-7 templates x 3 driver lists x 3 operation lists x stop.")
 CHECKS["C02"] = dict(
     category="model_checking", design_ref="DESIGN.md §5 C02, §11",
@@ -50,7 +50,7 @@ CHECKS["C05"] = dict(
          "operation never stays stuck (mc mode over length-compressed operations, exhaustive). In emit mode TLC prints the predicted class for every byte of every standard operation, whose exchange "
          "structure is exported from the device side of a fault-free run. The harness stalls the scripted device at that byte for generic/network/NETCONF operations and in-channel logins and checks: "
          "timeout-class error (privilege class allowed for an implicit privilege change), duration within effective timeout + slack and not before it, per-operation over connection-wide precedence "
-         "(shorter, longer, zero = maximum), a success only with the complete result, and after catch-up the next exchange returns its own result.",
+         "(shorter, longer, zero = maximum), a success only with the complete result, and after catch-up the next exchange returns its own result. Recovery is also judged after any written return on the privilege-aware driver, and after close/reopen of the same object (NETCONF replies carry the connection number). OpOptions.tla: the per-operation timeout lands in the channel and NETCONF layers whatever precedes it.",
     note="Trusted: TLC; wall-clock bounds (400 ms slack on 90-260 ms timeouts, candidates re-executed alone before being reported); the device-side exchange lengths. Quick: thresholds +-1 and every 3rd/5th byte; thorough: every byte x 3 segmentations.")
 CHECKS["C06"] = dict(
     category="model_checking", design_ref="DESIGN.md §5 C06, §11",
@@ -79,7 +79,7 @@ CHECKS["C04"] = dict(
     text="Privilege.tla: for every rooted labelled tree on 4 (thorough 5) levels, every set of authenticated edges, start mode, cold/warm cache and target, the loop ends at the target having issued "
          "exactly the escalate/de-escalate commands of the unique tree path, each in the mode it is a transition of (Reached, AlongPath, InPlace, NoError, termination). PrivScn.tla draws trees (incl. sibling "
          "levels that share one prompt, told apart only by the cached level), default/configuration levels, start modes and 1-4 operations (acquire, command, configs, configs at a level, config, interactive, "
-         "unknown target); the harness compares, per operation, the (mode, state, line) log of the device - commands, secrets in the password state, payload lines - the error class and the final mode.",
+         "unknown target); the harness compares, per operation, the (mode, state, line) log of the device - commands, secrets in the password state, payload lines - the error class and the final mode. Further operation kinds: configuration lines from a file with a level option, an unknown level by option, a late answer followed by close/open (reopen-late), options of other layers in front of the level option. OpOptions.tla: network.PrivilegeLevel.",
     note="Trusted: TLC, the device model (rejects and logs lines arriving in the wrong mode). Exact prompts except for leaf twins; the device changes mode only through the driver; secondary secret configured.")
 CHECKS["C09"] = dict(
     category="model_checking", design_ref="DESIGN.md §5 C09, §11",
@@ -100,7 +100,7 @@ CHECKS["C08"] = dict(
          "reads of its own, possibly together with the echo of that request), never answers, or lets the client's write of the trailing return fail after the request went out; it compares the message-id the "
          "server decoded for each request with the reply each call returned (own id and request number), the error class of unanswered calls, and the id sequence. NcReadLoop.tla models the read loop itself "
          "(buffer, delimiter test, echo removal, filing under the first id) against every segmentation allowed by the quantifier, including echoes delayed past a timeout; the older loop versions must be rejected by TLC; "
-         "every behaviour (N = 2) on which an older loop version would lose a reply, plus a seeded sample of the rest, is replayed on netconf.Driver with reads released in the behaviour's order, followed by a probe call.",
+         "every behaviour (N = 2) on which an older loop version would lose a reply, plus a seeded sample of the rest, is replayed on netconf.Driver with reads released in the behaviour's order, followed by a probe call. Epilogues: a second session on the same driver (late reply delivered first), one transient read error followed by three calls, replies that mention a subscription (token sbody). NcReadLoop.tla models the transient error (ReadErr / TakeErr; a loop that leaves is rejected).",
     note="Trusted: TLC, the server model (strict decoder, read boundaries at server-message ends). Calls answered at once have a 4 s deadline so NoLoss is not a timing race; candidates are re-executed alone. "
          "Two genuine defects found and repaired (reply lost when a late reply shares a read with the echo of the next request; the same with two echoes pending - the second one found by TLC first).")
 CHECKS["C03"] = dict(
@@ -110,7 +110,7 @@ CHECKS["C03"] = dict(
     text="Sessions (1.0/1.1 x forced self-closing x header x 2-6 operations out of 17 kinds with 11 argument kinds incl. multi-byte, 5 kB, attributes, namespaces, empty elements, comment/CDATA/PI before a "
          "closing tag) are executed against the server model, whose strict stream decoder also reports separator errors between consecutive messages. Each request becomes one trace event carrying the byte "
          "classes of the wire message and the projections computed by the harness (encoding/xml token tree of the wire vs of the document the RFC prescribes for that call); TLC accepts the trace only if "
-         "every conjunct of the request contract holds; a rejected session is reported with the failing conjunct and the remaining sessions are still validated.",
+         "every conjunct of the request contract holds; a rejected session is reported with the failing conjunct and the remaining sessions are still validated. Further: per cent signs in caller content; a session whose driver had an earlier session with a peer offering the other base version (the framing follows this session's two hellos). OpOptions.tla: the NETCONF operation options land whatever precedes them.",
     note="Trusted: TLC, encoding/xml as the XML projection, the server model's strict decoder. 150 (quick) / 1200 (thorough) sessions.")
 CHECKS["C10"] = dict(
     category="model_checking", design_ref="DESIGN.md §5 C10, §11",
@@ -119,7 +119,7 @@ CHECKS["C10"] = dict(
     text="All well-formed scripts over banner / ask user / ask password / ask passphrase / reject / ssh failure line / shell / silence / peer closes the stream (<= 5 steps quick, 6 thorough; ~3.7k dialogues) "
          "are generated with Bounded, Paired, OkIffShell as invariants and the predicted outcome (ok, auth, connection, timeout) and answers. The harness plays the script from a login front end (prompt "
          "spellings and error lines rotated), and compares Open's error class, the (state, line) log of the device - each credential only in its own question, at most twice - the transport being "
-         "closed on every failure, and that the first GetPrompt after a successful login still finds the prompt read during login.",
+         "closed on every failure, and that the first GetPrompt after a successful login still finds the prompt read during login. Histories: admitted login, close while the device prints a late message and redraws its prompt (yield point C_wait), open again - the second login is a login like the first. Empty password / passphrase.",
     note="Trusted: TLC, the login front end. Timeout 300 ms; a mismatching outcome must reproduce when the dialogue is re-executed alone. Banners contain nothing a prompt pattern accepts.")
 CHECKS["C11"] = dict(
     category="model_checking", design_ref="DESIGN.md §5 C11, §11",
@@ -135,7 +135,7 @@ CHECKS["C12"] = dict(
               "been delivered when each client write arrived; PacingTrace.tla (the enabling conditions of Stall.tla's write actions) validates every write",
     text="For every recorded write TLC checks: an event's input only after the previous exchange's expected response (or prompt) was delivered; a plain command's return only after its echo was delivered "
          "unless eager; the secondary secret only while the device is in its password state (never when the device grants or refuses without asking); a successful interactive result contains the whole "
-         "dialogue. Dialogues include hidden inputs, responses preceded by a prompt-looking line, early completion by a completion pattern, generic and network drivers.",
+         "dialogue. Dialogues include hidden inputs, responses preceded by a prompt-looking line, early completion by a completion pattern, generic and network drivers. OpOptions.tla: CompletePatterns / InterimPromptPatterns land whatever precedes them.",
     note="Trusted: TLC; device-side exchange lengths; reactions delayed 0.3-2.3 ms so that typing ahead is observable. The property does not require an echo wait for interactive events, so none is demanded.")
 CHECKS["C18"] = dict(
     category="model_checking", design_ref="DESIGN.md §5 C18, §11",
@@ -143,7 +143,7 @@ CHECKS["C18"] = dict(
               "decides membership in the firing rule with delivery boundaries existentially quantified",
     text="For each recorded firing TLC checks that the argument is the delivered stream since the last reset up to some delivery boundary (boundaries never move backwards), that the callback's trigger "
          "(contains with default case-insensitivity / regex class, and not the not-contains text) holds on it and no earlier callback's does, and that a once-callback does not run twice; for the outcome: "
-         "complete returns the whole dialogue up to that boundary, an operation error only after a once-callback's trigger won again, a time-out only when no trigger holds on what was accumulated.",
+         "complete returns the whole dialogue up to that boundary, an operation error only after a once-callback's trigger won again, a time-out only when no trigger holds on what was accumulated. Earlier operations on the same driver (timed out; same list failing inside a callback - spent marks in the trace) and an earlier session whose last read comes back after Close precede a third of the operations each; every scenario runs in a process of its own.",
     note="Trusted: TLC; the recorded delivered stream (device mutex order). 300 (quick) / 2500 (thorough) operations. One genuine defect repaired (not-contains inverted).")
 CHECKS["C15"] = dict(
     category="model_checking", design_ref="DESIGN.md §5 C15, §11",
@@ -170,7 +170,7 @@ CHECKS["C16"] = dict(
     text="PipeScn.tla draws sessions over {telnet, standard, system} x {shell, netconf} with read sizes 17/64/8192, payloads of 1..5000 bytes per direction, peer chunking 1..4096, 60-byte lines or one long "
          "line, all 256 byte values where no tty is in the path, peers that start talking before Open returns, and a Read blocked at Close (also with a peer that has stopped answering) or when the peer goes "
          "away. Every received segment is a trace event (offset by position code, count of foreign bytes); TLC accepts a session only if segments are contiguous, within what was sent, unaltered, complete, "
-         "and the blocked Read returned. CLI and NETCONF driver sessions over each transport must give the results of the in-memory pipe.",
+         "and the blocked Read returned. CLI and NETCONF driver sessions over each transport must give the results of the in-memory pipe. Every third session is the second one of its transport object; chunks handed out are kept and compared at the end (event kept); after the peer went away the next read and an orderly close return.",
     note="Kernel pty/TCP and OpenSSH are outside any model (DESIGN.md §7): the model states the contract, the traces come from the real stack. Known finding: system transport + NETCONF leaves the pty cooked.")
 CHECKS["C17"] = dict(
     category="model_checking", design_ref="DESIGN.md §5 C17, §11",
